@@ -9,6 +9,7 @@ and judges each case:
 -/
 import Kap.Basic
 import Kap.Spec.C17
+import Kap.Model.C17Quiescent
 open Kap Kap.C17
 
 namespace Kap.C17.Drv
@@ -109,7 +110,9 @@ def parseRes : String → Option Res
 
 def parseOp (ts : List String) : Option Op :=
   match ts with
-  | "sched" :: id :: sc :: off :: last :: _ => do pure (.sched (← id.toNat?) (← sc.toNat?) (← off.toInt?) (← last.toInt?))
+  | "sched" :: id :: sc :: off :: last :: rest => do
+    let fr := ((field "frac=" rest).bind (·.toInt?)).getD 0
+    pure (.sched (← id.toNat?) (← sc.toNat?) (← off.toInt?) (← last.toInt?) fr)
   | ["rel", id] => do pure (.rel (← id.toNat?))
   | ["adv", d] => do pure (.adv (← d.toNat?))
   | ["done", id, r, cp] => do
@@ -122,15 +125,19 @@ def brIf (p : Bool) (b : String) : List String := if p then [b] else []
 /-- Branch coverage of the model for one op (looked up on the states before/after). -/
 def opBranches (E : Env) (op : Op) (s : St) : List String :=
   match op with
-  | .sched id sc off last =>
+  | .sched id sc off last frac =>
     match E.nx sc last with
     | none => ["sched-next-error"]
     | some nt =>
       [if (aget s.index id).isSome then "sched-replace" else "sched-new",
        (match s.swhen with
         | none => "sched-arm-when-zero"
-        | some w => if w > nt + off then "sched-rearm-earlier" else "sched-no-rearm")] ++
+        | some w => if w > (nt + off) * 1000 + frac then "sched-rearm-earlier" else "sched-no-rearm")] ++
       brIf (nt + off ≤ s.now) "sched-already-due" ++
+      brIf (frac > 0) "subsecond-offset-positive" ++
+      brIf (frac < 0) "subsecond-offset-negative" ++
+      brIf ((aget s.busy (E.wk id)).any (fun it => it.id == id && nt < it.next)) "resched-in-flight-earlier-next" ++
+      brIf ((aget s.busy (E.wk id)).any (fun it => it.id == id && nt == it.next)) "resched-in-flight-same-next" ++
       brIf (off < 0) "negative-offset" ++
       brIf ((aget s.busy (E.wk id)).any (fun it => it.id == id)) "resched-while-in-flight" ++
       brIf (s.queue.any (fun it => it.whn == nt + off && it.id != id)) "equal-when-tie" ++
@@ -138,6 +145,7 @@ def opBranches (E : Env) (op : Op) (s : St) : List String :=
   | .rel id =>
     [if (aget s.index id).isSome then "release-scheduled" else "release-absent"] ++
     brIf ((aget s.busy (E.wk id)).any (fun it => it.id == id)) "release-while-in-flight" ++
+    brIf (s.tick && (aget s.index id).isSome) "release-between-fire-and-dispatch" ++
     brIf (s.queue.head?.any (fun it => it.id == id) && s.queue.length ≥ 2) "release-head-leaves-stale-timer"
   | .adv d =>
     if s.tick then ["adv-refused-tick-stuck"] else
@@ -176,8 +184,9 @@ def loopBranches (E : Env) (s s' : St) (newEvs : List Ev) : List String :=
   brIf s'.tick "tick-stuck" ++
   brIf (s.spinning && !s'.spinning) "spin-ends" ++
   brIf (s'.swhen.isNone && s.swhen.isSome) "loop-empty-when-zero" ++
-  brIf (match s'.timer with | some d => d < s'.now | none => false) "timer-rearmed-in-the-past" ++
-  brIf (match s'.swhen, s'.queue.head? with | some w, some it => w < it.whn | _, _ => false) "when-stale" ++
+  brIf (match s'.timer with | some d => d < s'.now * 1000 | none => false) "timer-rearmed-in-the-past" ++
+  brIf (match s'.swhen, s'.queue.head? with | some w, some it => w < it.whn * 1000 | _, _ => false) "when-stale" ++
+  brIf (s.tick && !s'.tick && nStarts == 0) "fired-tick-finds-nothing-to-dispatch" ++
   brIf (dropped newEvs) "drop-schedule-exhausted"
 
 def noteBranches (c : Ctx) (op : Op) (s s' : St) : Ctx :=
@@ -229,6 +238,8 @@ def judge (_id : String) (lines : Array String) : Verdict := Id.run do
   let env := mkEnv tbls wks
   -- PASS 1: the property on the OBSERVED output of the whole case (independent of the model)
   let mut mon : Mon := {}
+  let mut fracs : List (Nat × (Int × Int)) := []     -- id ↦ (whole-second offset, sub-second part in ms) of its scheduling
+  let mut knownSub : Option String := none
   for l in lines do
     let (opT, obs) := splitObs (tokens l)
     if opT.head? == some "cfg" then continue
@@ -247,10 +258,23 @@ def judge (_id : String) (lines : Array String) : Verdict := Id.run do
       | .rel id => [.rel id]
       | .adv d => if status == "refused" then [] else [.clock (mon.now + d)]
       | .done .. => []
+    match op with
+    | .sched id _ off _ fr => if status == "ok" then fracs := aset fracs id (off, fr)
+    | _ => pure ()
     match monRun env.nx mon (callEv ++ obsEvs.map (·.1)) with
     | .error clause => return .specfail clause s!"at `{" ".intercalate opT}` observed {evTok}"
     | .ok m' => mon := m'
-    let idle := dueIdle env.wk mon
+    -- never-early with the EXACT offset (the monitor above judged it with the whole-second Item.Offset)
+    for p in obsEvs do
+      match p.1 with
+      | .start id occ _ =>
+        let (off, fr) := (aget fracs id).getD (0, 0)
+        if (occ + off) * 1000 + fr > mon.now * 1000 then
+          if earlyBySubsecond off fr occ mon.now then
+            knownSub := some s!"at `{" ".intercalate opT}` task {id} occurrence {occ} offset {off}s+{fr}ms started at clock {mon.now}"
+          else return .specfail "never-early" s!"at `{" ".intercalate opT}` observed {evTok}"
+      | _ => pure ()
+    let idle := dueIdle env.wk (fun id => ((aget fracs id).getD (0, 0)).2) mon
     if !idle.isEmpty then
       return .specfail "due-run-dispatched" s!"after `{" ".intercalate opT}` task(s) {idle} have a due occurrence, an idle worker and no run"
   -- PASS 2: observed = model, op by op
@@ -303,6 +327,8 @@ def judge (_id : String) (lines : Array String) : Verdict := Id.run do
         let s1 := step c.env skip s op
         if (diff s1).isNone then (s1, true) else (s0, false)
       | _, _ => (s0, false)
+    if !decide (Quiescent c.env s') then
+      return .badop s!"the model did not reach a quiescent state after `{" ".intercalate opT}` (loop fuel exhausted)"
     c := noteBranches c op s s'
     c := addBrIf c raced "worker-freed-mid-pass"
     c := { c with model := s' }
@@ -316,6 +342,9 @@ def judge (_id : String) (lines : Array String) : Verdict := Id.run do
     | some d => return .mismatch s!"`{" ".intercalate opT}`: {d}"
     | none => pure ()
     if s'.now != c.mon.now then return .mismatch "clock"
+  match knownSub with
+  | some d => return .known "subsecond-offset-truncated" d
+  | none => pure ()
   let nt := c.starts ≥ 3 && c.interesting ≥ 1
   return .ok nt c.branches.reverse
 
